@@ -170,7 +170,11 @@ fn build(rng: &mut Rng, hist: &str, fe: Fe, class: Option<NoiseClass>, with_cut:
     l.knobs.insert("idle_seg".into(), idle_seg as i64);
     let max_payload = l.knobs.get("max_payload").copied();
     if let Some(c) = class {
-        let max = if tier == Tier::Thorough { 4000 } else { 1000 };
+        let mut max = if tier == Tier::Thorough { 4000 } else { 1000 };
+        if c == NoiseClass::Long && rng.chance(1, 4) {
+            // now and then more noise than a 16-bit counter holds
+            max = 70_000;
+        }
         let g = gen::gen_noise_class(rng, c, max);
         l.segs.push(Seg::Noise(Hx(g)));
         l.knobs.insert("noise_class".into(), NOISE_CLASSES.iter().position(|x| *x == c).unwrap() as i64);
